@@ -153,7 +153,8 @@ def check_case(case, ctx):
     ctx.check(np.all(fd[~incontact] == case["baseline"]), "off-contact", desc, "force != baseline off contact")
     # monotonic non-decreasing with depth
     dfd = np.diff(fd)
-    ctx.check(np.all(dfd >= -32 * EPS * (np.abs(fd[1:]) + abs(case["baseline"]))), "monotonic", desc,
+    # (to rounding: the layered model is a sum of terms, neighbouring depths 1 ulp apart differ by ~100 eps)
+    ctx.check(np.all(dfd >= -1024 * EPS * (np.abs(fd[1:]) + abs(case["baseline"]))), "monotonic", desc,
               f"force decreases with depth by {dfd.min():.3e} (range {frange:.3e})")
     # continuity at contact
     if incontact.any():
@@ -192,7 +193,8 @@ def check_case(case, ctx):
     fe = md.model(make_params(md, case, efac=case["efac"]), x)
     lhs = fe - case["baseline"]
     rhs = (f - case["baseline"]) * case["efac"]
-    tol = 1e-12 * np.abs(rhs) + 8 * EPS * abs(case["baseline"]) * (1 + case["efac"])
+    # (absolute floor: forces next to the contact point are subnormal numbers, 1e-12 of them underflows to 0)
+    tol = 1e-12 * np.abs(rhs) + 8 * EPS * abs(case["baseline"]) * (1 + case["efac"]) + 1e-290
     ctx.check(np.all(np.abs(lhs - rhs) <= tol), "moduli-linear", desc,
               f"factor {case['efac']}: max rel err {np.max(np.abs(lhs - rhs) / (np.abs(rhs) + 1e-300)):.3e}")
     # default residuals
